@@ -298,6 +298,8 @@ fn thread_optimize_message_hash<H: HashChain>(
     fast_verify_cached: &FastVerifyCached,
     message: &ArrayVec<[u8; MAX_LMS_PUBLIC_KEY_LENGTH]>,
 ) -> (u16, ArrayVec<[u8; MAX_HASH_SIZE]>) {
+    #[cfg(feature = "verif_hooks")]
+    crate::verif_hooks::fv::event(0);
     let mut max_hash_iterations = 0;
 
     let mut trial_randomizer: ArrayVec<[u8; MAX_HASH_SIZE]> = ArrayVec::new();
@@ -330,6 +332,8 @@ fn thread_optimize_message_hash<H: HashChain>(
             randomizer.copy_from_slice(trial_randomizer.as_slice());
         }
     }
+    #[cfg(feature = "verif_hooks")]
+    crate::verif_hooks::fv::event(1);
     (max_hash_iterations, randomizer)
 }
 
